@@ -67,6 +67,11 @@ def job_list(ctx, composite_only=False, cap_quick=2500, cap_thorough=20000):
     for k in range(ctx.n(5, 16)):
         j = genconfigs.soft_spheres_cells(rng)
         gen.append({**j, "seed": ctx.seed * 1000 + 400 + k, "max_legs": cap, "kind": "generated-cuboid"})
+    # hard disks with cells and the sequential-direction end of chain: velocity components of both signs (negative branch of the
+    # cell-boundary handler, wrap-around through the lower edge of cubic and non-cubic boxes)
+    for k in range(ctx.n(3, 8)):
+        j = genconfigs.hard_disks_cells(rng)
+        gen.append({**j, "seed": ctx.seed * 1000 + 700 + k, "max_legs": cap, "kind": "generated-hard-disks"})
     # "however long the run is": every third generated run starts with the heap scheduler's lazy-deletion counters just below the C
     # `unsigned int` range, i.e. in the state a production run reaches after ~4.3e9 trashed candidates per handler; the wrap-around
     # happens a few dozen to a few hundred legs into the traced run and must be invisible (runtrace: `prime_counters`)
@@ -78,6 +83,28 @@ def job_list(ctx, composite_only=False, cap_quick=2500, cap_thorough=20000):
     jobs += gen
     if composite_only:
         jobs = [j for j in jobs if "coulomb_atoms" not in j["ini"]]
+    return jobs
+
+
+def mp_jobs(ctx, composite=True):
+    """a few runs under the multi-process mediator (3 and 4 cores, seeded `connection.wait` adversary, out-states computed ahead of
+    time on idle cores): soft spheres with directly invertible pair events and - `composite` - the shipped dipole_motion.ini (mode
+    switchers, several handlers started in one leg). Further histories for the run-level oracles."""
+    from harness.props import c20 as _c20
+    rng = ctx.rng
+    jobs = []
+    for k in range(ctx.n(2, 5)):
+        b = _c20.soft_sphere(rng.randint(3, 6), rng.choice([2.0, 3.5]), rng.choice(["heap_scheduler", "list_scheduler"]),
+                             rng.choice([1.0, 2.0]), rng.choice([0.11, 0.37]))
+        for cores in (3, 4):
+            jobs.append({**b, "seed": ctx.seed * 100 + 70 + k, "max_legs": ctx.n(1200, 5000), "per_handler_rng": True, "timeout": 300,
+                         "kind": "generated-mp", "mp": {"cores": cores, "schedule_seed": ctx.seed * 1000 + 31 * k + cores}})
+    if composite:
+        for k, cores in enumerate((3, 4) if ctx.quick else (3, 4, 6)):
+            jobs.append({"ini": CFG + "dipoles/dipole_motion.ini", "seed": ctx.seed * 100 + 90 + k, "max_legs": ctx.n(1500, 6000),
+                         "overrides": {"FinalTimeEndOfRunEventHandler": {"end_of_run_time": rng.choice([12, 25])}},
+                         "per_handler_rng": True, "timeout": 300, "kind": "shipped-mp",
+                         "mp": {"cores": cores, "schedule_seed": ctx.seed * 1000 + 57 * k + cores}})
     return jobs
 
 
@@ -256,9 +283,10 @@ def replay_point_masses(ctx, tr):
             kind = "eoc"
         elif "CellBoundaryEventHandler" in bases:
             a = mov_post[0]
-            v = post[(a,)][1]
-            dd = max(range(d), key=lambda k: abs(v[k]))
-            line = f"ev snap {tq} {dd} {f2b(post[(a,)][0][dd])}"
+            # the snapped direction is not recorded (for axis-aligned motion it is the direction of motion; for velocities off the
+            # axes it is the direction of the nearest boundary): the driver takes the direction in which the committed position
+            # differs from the time-sliced one
+            line = f"ev snapauto {tq} " + " ".join(f2b(x) for x in post[(a,)][0])
             kind = "snap"
         elif mov_pre != mov_post:
             line = f"ev lift {tq} {mov_post[0]}"
